@@ -86,3 +86,72 @@ func vp_C14_at_state() {
 	vpReach("accepted-by-auth-check", err == nil && !allowValidation)
 	vpReach("refused", err != nil)
 }
+
+func vpSetPrev(e PDU, prev []string) PDU {
+	switch x := e.(type) {
+	case *eventV1:
+		x.PrevEvents = nil
+		for _, p := range prev {
+			x.PrevEvents = append(x.PrevEvents, eventReference{EventID: p})
+		}
+	case *eventV2:
+		x.PrevEvents = prev
+	case *eventV3:
+		x.PrevEvents = prev
+	}
+	return e
+}
+
+// vp:check C14 both configs=version:1|10 K=24 timeout=900
+// vp_C14_auth_chain: VerifyEventAuthChain accepts exactly when the event and, recursively, every auth event fetched
+// from the provider is allowed by its own auth events. Chain: message (Bob) -> Bob's membership -> join rules / power
+// levels -> Alice's join -> create; a fault is planted at one depth of the chain (or the provider fails).
+func vp_C14_auth_chain() {
+	ver := RoomVersion(vpConfig("version"))
+	h := vpBaseRoom(ver)
+	vpSetPrev(h.join, []string{h.createID}) // the creator's first join: its only previous event is the create event
+	fault := vpChoice("fault", "none", "power-levels-by-non-member", "join-under-invite-rule", "message-sender-left", "provider-error")
+	pl := h.pl
+	if fault == "power-levels-by-non-member" {
+		// the power-levels event was sent by Carol, who never joined: not allowed by its auth events
+		pl = vpSetAuth(vpMkEvent(ver, "$pl:x", h.room, vpCarol, spec.MRoomPowerLevels, vpStrPtr(""), vpJObj("users", vpJObj(vpCarol, int64(100)))), []string{h.createID, "$join:x"}, 3, 3)
+	}
+	rule := spec.Public
+	if fault == "join-under-invite-rule" {
+		rule = spec.Invite
+	}
+	jr := vpSetAuth(vpMkEvent(ver, "$jr:x", h.room, vpAlice, spec.MRoomJoinRules, vpStrPtr(""), vpJObj("join_rule", rule)), []string{h.createID, "$join:x", "$pl:x"}, 4, 4)
+	bj := vpSetAuth(vpMkEvent(ver, "$bj:x", h.room, vpBob, spec.MRoomMember, vpStrPtr(vpBob), vpJObj("membership", spec.Join)), []string{h.createID, "$pl:x", "$jr:x"}, 5, 5)
+	bl := vpSetAuth(vpMkEvent(ver, "$bl:x", h.room, vpBob, spec.MRoomMember, vpStrPtr(vpBob), vpJObj("membership", spec.Leave)), []string{h.createID, "$pl:x", "$bj:x"}, 6, 6)
+	member := "$bj:x"
+	if fault == "message-sender-left" {
+		member = "$bl:x"
+	}
+	msg := vpSetAuth(vpMkEvent(ver, "$msg:x", h.room, vpBob, "m.room.message", nil, vpJObj("body", "hi")), []string{h.createID, "$pl:x", member}, 9, 9)
+	store := map[string]PDU{h.createID: h.create, "$join:x": h.join, "$pl:x": pl, "$jr:x": jr, "$bj:x": bj, "$bl:x": bl}
+	asked := map[string]int{}
+	provider := func(roomVer RoomVersion, ids []string) ([]PDU, error) {
+		if fault == "provider-error" {
+			return nil, errors.New("cannot fetch")
+		}
+		var out []PDU
+		for _, id := range ids {
+			asked[id]++
+			if e, ok := store[id]; ok {
+				out = append(out, e)
+			}
+		}
+		return out, nil
+	}
+	err := VerifyEventAuthChain(context.Background(), msg, provider, vpUserIDForSender)
+	vpObserve("chain-error", err)
+	vpAssert("verdict", (err == nil) == (fault == "none"))
+	if err == nil {
+		// every link of the chain was fetched (and therefore checked)
+		for _, id := range []string{h.createID, "$join:x", "$pl:x", "$jr:x", "$bj:x"} {
+			vpAssert("whole-chain-fetched", asked[id] >= 1)
+		}
+	}
+	vpReach("accepted", err == nil)
+	vpReach("refused", err != nil)
+}
